@@ -257,3 +257,15 @@ PROPS["C12"]["rule"] += (" ; busy consumer (lookups_fault.go): getput.Get under 
                          "network is idle) or sleeps, while the remaining in-flight gets are answered stale-first / fresh-first / freshest-last, also "
                          "with a ctx cancel meanwhile and for an immutable target: the result is the highest verified seq served")
 PROPS["C14"]["rule"] += " ; lookups engine with socket write faults for bootstrap / announce / get / put (see C16)"
+# lookups engine, send-limiter / announce-answer families (harness/cmd/h/lookups_limiter.go)
+_LIM_RULE = (" ; lookups engine behind a SendLimiter that limits (lookups_limiter.go): rate.Every(1 h | 10 min) burst 0..3 (a send waits, only a cancellation "
+             "ends the wait), rate 0 burst 0..3 (a send beyond the budget fails), rate.Every(1..4 ms) (sends trickle) x Announce / AnnounceTraversal / "
+             "getput.Get / Put / Bootstrap with >= 3 starting nodes x Close / StopTraversing (limiter opened just before; or followed by Close once the "
+             "announce_peer queries queue in turn) / ctx / an immutable value ending the Get, the stop taken only with a query SEEN queued behind the limiter "
+             "(registered transaction, no datagram): the lookup ends within the engine's bound, Peers closed, Finished, no transaction or goroutine left; "
+             "nodes answering announce_peer / put with KRPC errors 201-205 / 301, string / undecodable / missing e, silence, another port / IP / t, twice, "
+             "error then response, a query; get_peers errors 201-204; a fresh token with every further query: each closest node gets ONE announce_peer with "
+             "the token of the traversal's own query, checked per datagram as it leaves (line lksent against the finished model's sends, "
+             "RunLookupsSends.rls_take; no traversal query after the first announce_peer)")
+PROPS["C16"]["rule"] += _LIM_RULE
+PROPS["C14"]["rule"] += " ; lookups engine behind a SendLimiter that limits and with nodes refusing announce_peer / put (see C16)"
